@@ -16,7 +16,7 @@ and fun from the same accessor (the tree's best individual) and nit from the met
 recorded or dominated by a recorded one: selection keeps the best of (offspring + elites) / the better of each (trial, parent)
 pair, only the last operator of a pipeline evaluates, and demes record exactly what their engine step returned; (R04.6) maxfun
 flows only into the cutoff wrapper and the stop condition and seed only into options['random_seed'] — so a larger budget
-replays the same evaluations as a prefix. (R04.8) no objective value is kept in state shared between problems (class-body containers, mutable default arguments); (R04.3) what `worse_than` does before its direction switch concerns NaN only; a best picked by argmax/argmin over raw values is not NaN-aware; positional cuts and possibly-zero elite counts in the population algebra."""
+replays the same evaluations as a prefix. (R04.8) no objective value is kept in state shared between problems (class-body containers, mutable default arguments); (R04.3) what `worse_than` does before its direction switch concerns NaN only; a best picked by argmax/argmin over raw values is not NaN-aware; positional cuts and possibly-zero elite counts in the population algebra. (R04.9) no individual carries another level's fitness or a sign-adapted value (R02.12; the local optimiser is exempt as in the property)."""
 NOTE = """The prefix / anytime behaviour itself (identical evaluation sequences for two budgets) quantifies over runs and is not executed;
 R04.6 decides the no-interference clause it rests on. The local optimiser's iterates are excluded by the property."""
 TECHNIQUE = "accessor provenance (def-use over property chains), append-only and order-polarity rules shared with C02/C13, selection algebra and information-flow of the budget parameter (custom ast analysis)"
